@@ -703,4 +703,218 @@ theorem strOf_inj (syms : List Bytes) (hnd : syms.Nodup) (i j : Nat) (hi : i < s
     rw [List.getElem?_eq_getElem hi, List.getElem?_eq_getElem hj, h]
   exact (List.getElem?_inj hi hnd).mp this
 
+/-! ### the chunk writer -/
+
+theorem appendLast_length : ∀ (segs : List Bytes) (b : Bytes), segs ≠ [] → (appendLast segs b).length = segs.length := by
+  intro segs
+  induction segs with
+  | nil => intro b h; exact absurd rfl h
+  | cons x xs ih =>
+    intro b _
+    cases xs with
+    | nil => rfl
+    | cons y r => simp only [appendLast, List.length_cons]; rw [ih b (by simp)]; rfl
+
+/-- every segment keeps its content as a prefix -/
+theorem appendLast_prefix : ∀ (segs : List Bytes) (b : Bytes) (k : Nat) (s : Bytes), segs[k]? = some s →
+    ∃ post, (appendLast segs b)[k]? = some (s ++ post) := by
+  intro segs
+  induction segs with
+  | nil => intro b k s h; simp at h
+  | cons x xs ih =>
+    intro b k s h
+    cases xs with
+    | nil =>
+      cases k with
+      | zero => simp at h; subst h; exact ⟨b, by simp [appendLast]⟩
+      | succ k => simp at h
+    | cons y r =>
+      cases k with
+      | zero => simp at h; subst h; exact ⟨[], by simp [appendLast]⟩
+      | succ k =>
+        simp only [List.getElem?_cons_succ] at h
+        obtain ⟨post, hp⟩ := ih b k s h
+        exact ⟨post, by simp only [appendLast, List.getElem?_cons_succ]; exact hp⟩
+
+/-- the last segment gets the new bytes -/
+theorem appendLast_last : ∀ (segs : List Bytes) (b : Bytes) (last : Bytes), segs[segs.length - 1]? = some last →
+    (appendLast segs b)[segs.length - 1]? = some (last ++ b) := by
+  intro segs
+  induction segs with
+  | nil => intro b last h; simp at h
+  | cons x xs ih =>
+    intro b last h
+    cases xs with
+    | nil => simp at h; subst h; simp [appendLast]
+    | cons y r =>
+      simp only [List.length_cons, Nat.add_sub_cancel] at h ⊢
+      rw [List.getElem?_cons_succ] at h
+      have := ih b last (by simpa using h)
+      simp only [appendLast, List.getElem?_cons_succ]
+      simpa using this
+
+/-- The record of chunk `c` lies in segment `ref >> 32` at offset `ref & 0xffffffff`. -/
+def Stored (crc : Crc) (segs : List Bytes) (ref : Nat) (c : Chunk) : Prop :=
+  ∃ sgm pre post, segs[sgm]? = some (pre ++ chunkRecord crc c.1 c.2 ++ post) ∧
+    ref = sgm * 4294967296 + pre.length ∧ c.2.length < maxChunkLen
+
+/-- writer invariant: there is a current segment and `w.n` is its length -/
+def CWInv (w : CW) : Prop := ∃ last, w.segs[w.segs.length - 1]? = some last ∧ last.length = w.n
+
+theorem stored_appendLast (crc : Crc) (segs : List Bytes) (b : Bytes) (ref : Nat) (c : Chunk)
+    (h : Stored crc segs ref c) : Stored crc (appendLast segs b) ref c := by
+  obtain ⟨sgm, pre, post, hs, hr, hl⟩ := h
+  obtain ⟨post', hp⟩ := appendLast_prefix segs b sgm _ hs
+  exact ⟨sgm, pre, post ++ post', by rw [hp]; simp [List.append_assoc], hr, hl⟩
+
+theorem writeBatch_spec (crc : Crc) : ∀ (cs : List Chunk) (w w' : CW) (refs : List Nat),
+    CWInv w → CW.writeBatch crc w cs = .ok (w', refs) →
+    CWInv w' ∧ w'.segSize = w.segSize ∧ w'.segs.length = w.segs.length ∧
+    (∀ ref c, Stored crc w.segs ref c → Stored crc w'.segs ref c) ∧
+    refs.length = cs.length ∧
+    ∀ (i : Nat) (c : Chunk) (ref : Nat), cs[i]? = some c → refs[i]? = some ref → Stored crc w'.segs ref c := by
+  intro cs
+  induction cs with
+  | nil =>
+    intro w w' refs hinv h
+    simp only [CW.writeBatch, Except.ok.injEq, Prod.mk.injEq] at h
+    obtain ⟨rfl, rfl⟩ := h
+    exact ⟨hinv, rfl, rfl, fun _ _ h => h, rfl, by intro i c ref hc; simp at hc⟩
+  | cons c cs ih =>
+    intro w w' refs hinv h
+    unfold CW.writeBatch at h
+    split at h
+    · cases h
+    · rename_i hlen
+      simp only at h
+      obtain ⟨last, hlast, hn⟩ := hinv
+      have hne : w.segs ≠ [] := by
+        intro he; rw [he] at hlast; simp at hlast
+      -- state after the record
+      have hinv1 : CWInv (⟨w.segSize, w.n + (chunkRecord crc c.1 c.2).length, appendLast w.segs (chunkRecord crc c.1 c.2)⟩ : CW) := by
+        refine ⟨last ++ chunkRecord crc c.1 c.2, ?_, ?_⟩
+        · simp only [appendLast_length _ _ hne]
+          exact appendLast_last _ _ _ hlast
+        · simp only [List.length_append]; omega
+      cases hrec : CW.writeBatch crc (⟨w.segSize, w.n + (chunkRecord crc c.1 c.2).length, appendLast w.segs (chunkRecord crc c.1 c.2)⟩ : CW) cs with
+      | error e => rw [hrec] at h; cases h
+      | ok r =>
+        obtain ⟨w1, refs1⟩ := r
+        rw [hrec] at h
+        simp only [Except.ok.injEq, Prod.mk.injEq] at h
+        obtain ⟨rfl, rfl⟩ := h
+        obtain ⟨i1, i2, i3, i4, i5, i6⟩ := ih _ _ _ hinv1 hrec
+        have hstored0 : Stored crc (appendLast w.segs (chunkRecord crc c.1 c.2))
+            ((w.segs.length - 1) * 4294967296 + w.n) c := by
+          refine ⟨w.segs.length - 1, last, [], ?_, by rw [hn], by omega⟩
+          rw [appendLast_last _ _ _ hlast]; simp
+        refine ⟨i1, i2, ?_, ?_, by simp [i5], ?_⟩
+        · rw [i3]; exact appendLast_length _ _ hne
+        · intro ref c' hs; exact i4 ref c' (stored_appendLast crc _ _ ref c' hs)
+        · intro i c' ref hc hr
+          cases i with
+          | zero =>
+            simp only [List.getElem?_cons_zero, Option.some.injEq] at hc hr
+            subst hc hr
+            exact i4 _ _ hstored0
+          | succ i =>
+            simp only [List.getElem?_cons_succ] at hc hr
+            exact i6 i c' ref hc hr
+
+
+theorem cut_inv (w : CW) : CWInv w.cut := by
+  refine ⟨segmentHeader, ?_, rfl⟩
+  simp [CW.cut]
+
+theorem stored_cut (crc : Crc) (w : CW) (ref : Nat) (c : Chunk) (h : Stored crc w.segs ref c) :
+    Stored crc w.cut.segs ref c := by
+  obtain ⟨sgm, pre, post, hs, hr, hl⟩ := h
+  refine ⟨sgm, pre, post, ?_, hr, hl⟩
+  have hlt : sgm < w.segs.length := (List.getElem?_eq_some_iff.mp hs).1
+  simp only [CW.cut]
+  rw [List.getElem?_append_left hlt]; exact hs
+
+theorem writeBatches_spec (crc : Crc) : ∀ (bs : List (List Chunk)) (w w' : CW) (refs : List Nat),
+    CWInv w → CW.writeBatches crc w bs = .ok (w', refs) →
+    CWInv w' ∧ (∀ ref c, Stored crc w.segs ref c → Stored crc w'.segs ref c) ∧
+    refs.length = bs.flatten.length ∧
+    ∀ (i : Nat) (c : Chunk) (ref : Nat), bs.flatten[i]? = some c → refs[i]? = some ref → Stored crc w'.segs ref c := by
+  intro bs
+  induction bs with
+  | nil =>
+    intro w w' refs hinv h
+    simp only [CW.writeBatches, Except.ok.injEq, Prod.mk.injEq] at h
+    obtain ⟨rfl, rfl⟩ := h
+    exact ⟨hinv, fun _ _ h => h, rfl, by intro i c ref hc; simp at hc⟩
+  | cons b rest ih =>
+    intro w w' refs hinv h
+    cases rest with
+    | nil =>
+      simp only [CW.writeBatches] at h
+      obtain ⟨i1, _, _, i4, i5, i6⟩ := writeBatch_spec crc b w w' refs hinv h
+      exact ⟨i1, i4, by simp [i5], by simpa using i6⟩
+    | cons b2 rest =>
+      simp only [CW.writeBatches] at h
+      cases h1 : CW.writeBatch crc w b with
+      | error e => rw [h1] at h; cases h
+      | ok r1 =>
+        obtain ⟨w1, refs1⟩ := r1
+        rw [h1] at h
+        simp only at h
+        cases h2 : CW.writeBatches crc w1.cut (b2 :: rest) with
+        | error e => rw [h2] at h; cases h
+        | ok r2 =>
+          obtain ⟨w2, refs2⟩ := r2
+          rw [h2] at h
+          simp only [Except.ok.injEq, Prod.mk.injEq] at h
+          obtain ⟨rfl, rfl⟩ := h
+          obtain ⟨_, _, _, a4, a5, a6⟩ := writeBatch_spec crc b w w1 refs1 hinv h1
+          obtain ⟨b1, b4, b5, b6⟩ := ih w1.cut _ refs2 (cut_inv w1) h2
+          refine ⟨b1, ?_, ?_, ?_⟩
+          · intro ref c hs; exact b4 ref c (stored_cut crc w1 ref c (a4 ref c hs))
+          · simp only [List.flatten_cons, List.length_append] at b5 ⊢; omega
+          · intro i c ref hc hr
+            simp only [List.flatten_cons] at hc
+            by_cases hi : i < b.length
+            · rw [List.getElem?_append_left hi] at hc
+              rw [List.getElem?_append_left (by omega)] at hr
+              exact b4 ref c (stored_cut crc w1 ref c (a6 i c ref hc hr))
+            · rw [List.getElem?_append_right (by omega)] at hc
+              rw [List.getElem?_append_right (by omega), a5] at hr
+              exact b6 (i - b.length) c ref (by simpa using hc) hr
+
+theorem splitBatches_flatten (segSize wn : Nat) : ∀ (cs : List Chunk) (i bsz : Nat) (fb : Bool) (cur : List Chunk)
+    (done : List (List Chunk)),
+    (splitBatches segSize wn cs i bsz fb cur done).flatten = done.reverse.flatten ++ cur.reverse ++ cs := by
+  intro cs
+  induction cs with
+  | nil => intro i bsz fb cur done; simp [splitBatches]
+  | cons c cs ih =>
+    intro i bsz fb cur done
+    unfold splitBatches
+    simp only
+    repeat' split
+    all_goals (rw [ih]; simp)
+
+/-- `WriteChunks`: every chunk of the call is stored under the reference assigned to it, and what
+    was stored before stays stored (segments only grow, new segments are appended). -/
+theorem writeChunks_spec (crc : Crc) (w w' : CW) (chks : List Chunk) (refs : List Nat)
+    (hinv : w.n ≠ 0 → CWInv w) (h : w.writeChunks crc chks = .ok (w', refs)) :
+    CWInv w' ∧ (∀ ref c, Stored crc w.segs ref c → Stored crc w'.segs ref c) ∧
+    refs.length = chks.length ∧
+    ∀ (i : Nat) (c : Chunk) (ref : Nat), chks[i]? = some c → refs[i]? = some ref → Stored crc w'.segs ref c := by
+  unfold CW.writeChunks at h
+  simp only at h
+  have hflat := splitBatches_flatten w.segSize w.n chks 0 0 true [] []
+  simp only [List.reverse_nil, List.flatten_nil, List.nil_append] at hflat
+  by_cases hn : w.n = 0
+  · rw [if_pos hn] at h
+    obtain ⟨b1, b4, b5, b6⟩ := writeBatches_spec crc _ w.cut w' refs (cut_inv w) h
+    rw [hflat] at b5 b6
+    exact ⟨b1, fun ref c hs => b4 ref c (stored_cut crc w ref c hs), b5, b6⟩
+  · rw [if_neg hn] at h
+    obtain ⟨b1, b4, b5, b6⟩ := writeBatches_spec crc _ w w' refs (hinv hn) h
+    rw [hflat] at b5 b6
+    exact ⟨b1, b4, b5, b6⟩
+
 end Prom.BlockIndex
